@@ -381,6 +381,7 @@ def check(rep):
                 'COSIM: 1..3 channels with a caller thread each issuing synchronous calls while the broker sends Channel.Close(code,text) on '
                 'channel 1 / Connection.Close(code) / a returned message, at a random virtual time, random schedules; distinct = distinct '
                 'configurations+ops / scenarios; non-trivial = at least two steps / the event arrives while a caller is waiting')
+    rep.rule += '; plus: a returned mandatory message on a confirming channel next to a second publisher, and Connection.Close on a connection one of whose channels already holds an error of its own (parked return / earlier broker close)'
     rep.assumptions = [
         'a frame handler of the reader is a sequence of atomic effects in source order; callers may observe any prefix (source-line pre-emption in COSIM)',
         'Connection.close() invoked by a raising check is represented by its effect on states (all channels CLOSED); its own wire traffic belongs to C11/C08',
